@@ -23,7 +23,7 @@ PROPS = {
     },
     "C19": {
         "streams": streams(("addr", 1500, 40000)),
-        "rule": "address grammar: protocol in {unix, tcp, unixpacket, tcp4, udp, UNIX, 'unix ', '', missing} x path/host forms (empty, '@name', '@', absolute in a scratch dir, relative, missing directory, over-long, path containing ':', tcp host:port good and bad) with and without ';tail' (tails containing ':' and ';'), plus random strings; pre-existing stale socket / regular file at the path; 1-3 binds on one service object followed by a known-good bind; per successful bind a DoListen + NewConnection(same string) + GetInfo + Shutdown cycle; non-trivial = a string with at least 2 separators",
+        "rule": "address grammar: protocol in {unix, tcp, unixpacket, tcp4, udp, UNIX, 'unix ', '', missing} x path/host forms (empty, '@name', '@', absolute in a scratch dir, relative, missing directory, over-long, path containing ':', tcp host:port good and bad) with and without ';tail' (tails containing ':' and ';'), plus random strings; pre-existing stale socket / regular file at the path; 1-3 binds on one service object (after a refused one, in half of the cases, a DoListen all the same) followed by a known-good bind; per successful bind a DoListen + NewConnection(same string) + GetInfo + Shutdown cycle; non-trivial = a string with at least 2 separators",
         "trusted_base": ["net.Listen / net.Dial / the file system are the environment of the model (a valid address may still fail to bind; generated endpoints known to be listenable must bind)"],
         "assumptions": ["error classes are recognised by the three fixed error texts of Bind/parseAddress"],
     },
@@ -40,14 +40,14 @@ PROPS = {
         "assumptions": [],
     },
     "C02": {
-        "streams": streams(("e2e", 600, 12000), ("ctxio", 2000, 60000), ("conn", 1500, 40000), ("client", 1500, 40000), ("jsonself", 2500, 200000), ("jsonstruct", 4000, 300000), ("bigframes", 24, 400)),
-        "rule": "(e2e) raw bytes of both directions captured by a recording proxy between a real Connection and a real Service (unix, abstract unix, tcp): every captured message must be one JSON object + one NUL and equal the model's rendering; parameters are generated JSON objects with adversarial strings (NUL, quotes, controls, non-BMP, U+2028, invalid UTF-8), long digit strings, nesting, sizes up to 200 KiB; (ctxio) real ctxio.Conn over scripted segmentations (byte-wise, at NULs, random, frames > 4096 bytes, many frames per segment) against readAll/runOps; (conn)/(client) every message written by sendMessage / Send; non-trivial = a value with nesting >= 2 (e2e) or a frame spanning a segment boundary / >= 2 frames per segment (ctxio)",
+        "streams": streams(("e2e", 600, 12000), ("ctxio", 2000, 60000), ("conn", 1500, 40000), ("client", 1500, 40000), ("jsonself", 2500, 200000), ("jsonstruct", 4000, 300000), ("bigframes", 24, 400), ("scale", 2, 4)),
+        "rule": "(scale) a connection closed twice followed by 3 connections open at once, each recovering only its own replies; two 1 MiB replies on two connections under way at the same time; (e2e) raw bytes of both directions captured by a recording proxy between a real Connection and a real Service (unix, abstract unix, tcp): every captured message must be one JSON object + one NUL and equal the model's rendering; parameters are generated JSON objects with adversarial strings (NUL, quotes, controls, non-BMP, U+2028, invalid UTF-8), long digit strings, nesting, sizes up to 200 KiB; (ctxio) real ctxio.Conn over scripted segmentations (byte-wise, at NULs, random, frames > 4096 bytes, many frames per segment) against readAll/runOps; (conn)/(client) every message written by sendMessage / Send; non-trivial = a value with nesting >= 2 (e2e) or a frame spanning a segment boundary / >= 2 frames per segment (ctxio)",
         "trusted_base": [JSON_TB, "bufio.Reader is modelled (lean/Varlink/Frame.lean), validated against the real package by the ctxio stream of every run"],
         "assumptions": ["number literals inside parameters are JSON numbers (json.Marshal guarantees it); nesting below encoding/json's limit of 10000"],
     },
     "C03": {
-        "streams": streams(("e2e", 1200, 30000), ("jsonself", 2500, 200000), ("jsonstruct", 4000, 300000), ("scale", 12, 48), ("client", 1500, 40000, "-tier", "TIER")),
-        "rule": "(scale) one dimension far beyond the replayed cases between real client and real service: frames of 1 MiB .. 16 MiB + 1 in both directions, 70 / 300 connections open at once, 5000 / 20000 calls on one connection, a more call with 20000 / 70000 replies; real Connection <-> real Service over filesystem unix socket, abstract unix socket, TCP loopback and a bridge subprocess (cycled); 1-3 calls per connection with generated JSON objects as parameters (integers beyond 2^53, exponents, -0, empty objects, null members, unicode, up to 200 KiB), more-sequences of 0-50 replies, error replies, oneway calls; compared: what the handler reads via GetParameters, every value / continues bit / error the client's receive returns; non-trivial = parameters with nesting >= 2",
+        "streams": streams(("e2e", 1200, 30000), ("jsonself", 2500, 200000), ("jsonstruct", 4000, 300000), ("scale", 14, 56), ("client", 1500, 40000, "-tier", "TIER")),
+        "rule": "(scale) one dimension far beyond the replayed cases between real client and real service: frames of 1 MiB .. 16 MiB + 1 in both directions, 70 / 300 connections open at once, 5000 / 20000 calls on one connection, a more call with 20000 / 70000 replies, a connection closed twice followed by 3 connections open at once (each gets only its own replies), two 1 MiB replies on two connections under way at the same time; real Connection <-> real Service over filesystem unix socket, abstract unix socket, TCP loopback and a bridge subprocess (cycled); 1-3 calls per connection with generated JSON objects as parameters (integers beyond 2^53, exponents, -0, empty objects, null members, unicode, up to 200 KiB), more-sequences of 0-50 replies, error replies, oneway calls; compared: what the handler reads via GetParameters, every value / continues bit / error the client's receive returns; non-trivial = parameters with nesting >= 2",
         "trusted_base": [JSON_TB, "the four transports are assumed to be reliable ordered byte pipes (sampled, not proved)"],
         "assumptions": ["values are valid UTF-8 for the exact-equality theorems; invalid UTF-8 is replaced by U+FFFD exactly as encoding/json does (theorem parseDoc_render_sanitize, and compared on the wire)"],
     },
